@@ -1,5 +1,6 @@
 """C08 — static summaries of filters (interest, max-level hint) are sound upper bounds."""
 from checklib.main import Stream
+import re
 from checks.C11 import gen_string, hx
 
 def gen_leaf(rng):
@@ -106,6 +107,29 @@ def _gen_wrapped(rng, tier):
 _sw = Stream('stackwrapped', 'h_layers', mode='modelstack', gen=_gen_wrapped,
              nontrivial=lambda c, o: (':' in c.split(' ;; ')[0] or 'none' in c or 'empty' in c) and any(len(t) > 2 for t in o.split()), spec_mode='spec')
 _sw.env = {'TV_HINT_GATE': '1'}
+def _gen_treehint(rng, tier):
+    # the hint itself, for stacks with wrappers AND absent subscribers anywhere (no restriction): compared with the tree-hint model
+    # with None operands (Core/TreeHint) and judged for soundness against what the layers would receive
+    import importlib
+    g = importlib.import_module('checks.C09').gen_wrapped(rng, 'thorough')
+    def strip_r(t):
+        # (a reload::Subscriber around a per-layer-filtered layer hides the filter from the hint merge: documented limitation)
+        if ':' in t and re.fullmatch(r'F\d+', t.split(':')[-1]):
+            pre = [p for p in t.split(':')[:-1] if p != 'r']
+            return ':'.join(pre + [t.split(':')[-1]])
+        return t
+    for _ in range(800 if tier == 'quick' else 20000):
+        yield 'H ' + ' '.join(strip_r(t) for t in next(g).split(' ;; ')[0].split())
+_th = Stream('treehint', 'h_layers', mode='modelhint', gen=_gen_treehint,
+             nontrivial=lambda c, o: ('none' in c.split() or 'empty' in c.split() or ':' in c) and o.startswith('h:') and o != 'h:5', spec_mode='spechint')
+
+def attribute(stream, case, impl, model, why):
+    # F32: an absent subscriber (None / empty Vec) next to per-layer-filtered layers in an and_then tree
+    t = case.split()
+    if stream == 'treehint' and why.endswith('!unsound') and ('none' in t or 'empty' in t) and any(re.fullmatch(r'(\w:)*F\d+', x) for x in t):
+        return 'F32'
+    return None
+
 _sc = Stream('stackchain', 'h_chain', mode='modelchain', gen=_gen_chain, nontrivial=lambda c, o: _c07('nontrivial')(c, o), spec_mode='spec')
 _sc.env = {'TV_HINT_GATE': '1'}
 
@@ -116,18 +140,20 @@ PROPERTY = {
                 "most_specific_wins for target tables). The transcribed combinators are compared with the real FilterExt combinators on random expressions over a 280-point metadata universe in two contexts, "
                 "observing real delivery to a filtered layer, and the three implications are judged on the implementation's own answers. Whole stacks: stack_interest_sound (pick_interest + FilterState interest "
                 "accumulation) and stack_hint_sound (pick_level_hint) over stacks of plain / global-filter / per-layer-filtered layers; real stacks (and_then trees and .with() chains) are driven through a front end that applies "
-                "the macros' gates — level against the published max-level hint, then the cached interest — and what every layer receives is compared with the model and with the summary-free specification.",
+                "the macros' gates — level against the published max-level hint, then the cached interest — and what every layer receives is compared with the model and with the summary-free specification. Trees with absent subscribers: the hint merge with "
+                "`Option::None` layers, empty Vecs and the pass-through wrappers is modelled operand by operand (Core/TreeHint: hint, counts-as-per-layer-filtered, counts-as-absent), agrees with the proved model where no "
+                "subscriber is absent (tree_agrees, stack_agrees), is compared with the hint the real stack publishes on every generated wrapped stack, and judged for soundness; the unsound region is finding F32 (f32_witness).",
         'note': "Trusted: Lean kernel; propext/Classical.choice/Quot.sound; user closures are honest as the code's own debug_assert!s demand (hypothesis Honest); EnvFilter with span-scoped directives as a leaf is not in the expression model (C11 models the filter itself); pass-through wrappers, None "
-                "layers and empty Vecs are erased by the stack model and exercised by stream stackwrapped (None / empty layers only in stacks without per-layer-filtered layers: finding F32, DESIGN 12.8). "
+                "layers and empty Vecs are erased by the stack model and exercised by stream stackwrapped (in the delivery stream None / empty layers only in stacks without per-layer-filtered layers; the treehint stream has them everywhere and reproduces finding F32). "
                 "Repaired on the way: F31 (an empty Vec capped its neighbours' hint at OFF). Known findings F6 (Vec register_callsite), F8 (EnvFilter [span]=level) are stack/EnvFilter-level.",
         'technique': 'Lean 4 proof (structural induction on the expression type) + differential run against the real combinators',
     },
-    'lean_module': 'TracingModel.Props.C08S',
-    'leanchecker_modules': ['TracingModel.Props.C08'],
+    'lean_module': 'TracingModel.Props.C08T',
+    'leanchecker_modules': ['TracingModel.Props.C08', 'TracingModel.Props.C08S'],
     'namespace': 'C08',
     'units': [],
-    'required_theorems': ['C08.interest_sound', 'C08.hint_sound', 'C08.stack_interest_sound', 'C08.stack_hint_sound'],
-    'streams': [_st, _sk, _sc, _sw],
+    'required_theorems': ['C08.interest_sound', 'C08.hint_sound', 'C08.stack_interest_sound', 'C08.stack_hint_sound', 'C08.tree_agrees', 'C08.stack_agrees', 'C08.f32_witness'],
+    'streams': [_st, _sk, _sc, _sw, _th],
     'rule': 'random filter expressions (depth <= 4 quick / 6 thorough) over level thresholds, Targets strings, static closures with/without (honest) hints, context-dependent closures with/without hint and callsite closure, '
             'None/Some, and/or/not, reload and Box wrappers; each evaluated on 7 targets x 5 levels x span/event x 4 field sets in two contexts through the real Filtered layer; non-trivial = at least 2 operators/leaves and >=2 distinct interests. Streams stack / stackchain: the stack and history generators of C07 with the max-level-hint gate switched on in the front end; non-trivial as in C07',
     'trusted_base': ['hand-written model Core/FilterExpr.lean', 'executor h_filters (builds Box<dyn Filter> trees with the real FilterExt combinators)', 'hand-written models Core/Filtering.lean, Core/Reload.lean (stackInterest, stackHint)', 'executors h_layers, h_chain with TV_HINT_GATE'],
